@@ -81,6 +81,9 @@ def main():
             patch = os.path.join(sdir, name, "patch.diff")
             a = sh("git", "-C", TARGET, "apply", patch)
             if a.returncode != 0:
+                # the surrounding code may have moved since the change was written (later fix: commits): retry with less context
+                a = sh("git", "-C", TARGET, "apply", "-C1", "--recount", patch)
+            if a.returncode != 0:
                 results.append((name, pids, "patch does not apply: " + a.stderr[:200]))
                 continue
             try:
